@@ -181,7 +181,7 @@ def check(cx):
     r7 = cx.rule("C15.7", "MPR: the statement-level CREATE executors guard the catalog store with a name check that asks the "
                  "catalog for *any* relation of that name (tables and indexes share the name index; store_relation upserts "
                  "it): the check dominates the store, reaches Catalog::get_relation_by_name/bind_relation and applies no "
-                 "kind filter (is_table/is_index)", floor=2)
+                 "kind filter (is_table/is_index); the `exists` arm never reaches the store", floor=4)
     STORE = {"schema::catalog::Catalog::store_relation", DDL + "::create_unique_index"}
     LOOKUP = {"schema::catalog::Catalog::get_relation_by_name", "schema::catalog::Catalog::bind_relation"}
     KIND = {"schema::base::Relation::is_table", "schema::base::Relation::is_index", "schema::base::Relation::kind"}
@@ -216,6 +216,24 @@ def check(cx):
                             and all(f.dominates(bi, s_.bb) for s_ in stores):
                         decides = True
             good = decides
+        # when the check says the name is taken, nothing is stored: the `exists` arm never reaches the store (IF NOT EXISTS is a
+        # no-op, not a re-creation - store_relation upserts the name index and would re-point the name at an empty table)
+        reaches_store = False
+        for c, filt in checks:
+            if filt or c.term["to"] is None:
+                continue
+            tb = f.blocks[c.term["to"]]["term"]
+            res = c.dst[0]
+            for bi, b in enumerate(f.blocks):
+                t = b["term"]
+                if t["t"] == "switch" and t.get("ty") == "bool" and op_local(t["o"]) == res:
+                    taken = f.reachable_threaded(t["otherwise"])
+                    if any(s_.bb in taken for s_ in stores):
+                        reaches_store = True
+        cx.verdict(not reaches_store, r7, name + ":taken-name-stores-nothing", f.where(), "the `name exists` arm cannot reach the store",
+                   "%s can reach the catalog store on the path where the name check answered `exists` (e.g. IF NOT EXISTS folded into the "
+                   "condition): CREATE TABLE IF NOT EXISTS on an existing table creates a new empty table under the same name and the old "
+                   "rows become unreachable" % name)
         cx.verdict(good, r7, name, f.where(), "name check over the whole namespace dominates the store",
                    "%s stores a relation without first asking whether *any* relation of that name exists (no check, or a check "
                    "filtered by kind): creating an index named like a table re-points the name at the index and the table "
@@ -348,3 +366,29 @@ def check(cx):
                    "same statement are erased from the catalog row (a UNIQUE declared before the PRIMARY KEY loses its index)" % (f.id, stale or sorted(origins)))
     if n10 == 0:
         cx.bad(r10, "no-site", "", "no schema-writing update_relation call found in the DDL executor")
+
+    # ---- C15.11 SET/DROP NOT NULL set the flag to the constant the action names ----------------------------------------------
+    r11 = cx.rule("C15.11", "TAB: in DdlExecutor::apply_column_alter the SetNotNull arm stores the constant true into Column.is_non_null and the "
+                  "DropNotNull arm the constant false (the instruction's previous-state flag is for the inverse, C15.8, and must not "
+                  "decide the new state: a redundant ALTER would flip the constraint)", floor=2)
+    fa_ = cx.guard(r11, "apply_column_alter", p.fn, DDL + "::apply_column_alter")
+    if fa_:
+        sws = [x for x in enum_switches(p, fa_) if x[1] == "runtime::ddl::AlterColumnActionInstr"]
+        if not sws:
+            cx.bad(r11, "no-match", fa_.where(), "apply_column_alter does not match on the action")
+        else:
+            bi, adt, m, oth, _ = max(sws, key=lambda x: len(x[2]))
+            for var, want in (("SetNotNull", 1), ("DropNotNull", 0)):
+                if var not in m:
+                    cx.bad(r11, var, fa_.where(), "no arm for %s" % var)
+                    continue
+                reg = dominated(fa_, m[var])
+                vals = []
+                for b_ in sorted(reg):
+                    for st in fa_.blocks[b_]["stmts"]:
+                        if any(isinstance(pe, str) and pe.startswith(".is_non_null:") for pe in st["dst"][1:]):
+                            k = op_const(st["rv"]["o"][0]) if st["rv"].get("r") == "use" else None
+                            vals.append(k.get("v") if k and "v" in k else "computed")
+                cx.verdict(vals == [want], r11, var, fa_.where(), "stores %s" % bool(want),
+                           "the %s arm of apply_column_alter stores %s into is_non_null instead of the constant %s: ALTER COLUMN %s on a column "
+                           "that already is in that state flips it" % (var, vals or "nothing", bool(want), "SET NOT NULL" if want else "DROP NOT NULL"))
